@@ -94,12 +94,13 @@ pub trait Translator {
         forall|j: int| 0 <= j < vf_it0.seq().len() ==> *(#[trigger] vf_it0.seq()[j]) == opt.manual_edges@[j],
         translation_queue@.len() > 0 && translation_queue@[0] == function_address,
         all_in(translation_queue@, u),
-        forall|j: int| 0 <= j < vf_it0.index@ ==> translation_queue@.contains(#[trigger] me_head(opt, j)) && translation_queue@.contains(me_tail(opt, j)),
+        forall|j: int, t: bool| 0 <= j < vf_it0.index@ ==> translation_queue@.contains(#[trigger] me_end(opt, j, t)),
 //@ before 0 `translation_queue.push_back(manual_edge.head_address());`
     let ghost q0 = translation_queue@;
     proof {
         assert(*manual_edge == opt.manual_edges@[vf_it0.index@ as int]);
-        assert(u.contains(me_head(opt, vf_it0.index@ as int)) && u.contains(me_tail(opt, vf_it0.index@ as int)));
+        assert(u.contains(me_end(opt, vf_it0.index@ as int, false)));
+        assert(u.contains(me_end(opt, vf_it0.index@ as int, true)));
         assert(manual_edge.head_address == me_head(opt, vf_it0.index@ as int) && manual_edge.tail_address == me_tail(opt, vf_it0.index@ as int));
         lemma_enqueue_step(q0, opt, vf_it0.index@ as int);
     }
@@ -327,8 +328,8 @@ pub trait Translator {
     let ghost mi = (vf_mi - 1) as int;
     proof {
         assert(*manual_edge == opt.manual_edges@[mi]);
-        assert(rs.contains_key(me_head(opt, mi)));
-        assert(rs.contains_key(me_tail(opt, mi)));
+        assert(rs.contains_key(me_end(opt, mi, false)));
+        assert(rs.contains_key(me_end(opt, mi, true)));
         assert(bi.contains_key(me_head(opt, mi)) && bi.contains_key(me_tail(opt, mi)));
     }
 //@ before 0 `control_flow_graph.conditional_edge(edge_head, edge_tail, condition.clone())?;`
